@@ -33,8 +33,18 @@ SPEC = {
                      "C02_revoke_advances_tail", "C02_tail_height_monotone",
                      "C02_restore_keeps_tail"],
         "env": {"VERIF_CRASH": "1", "VERIF_CUT": "1"},
-        "predicates": ["reload_consistent", "release_rule", "no_errors", "conservation",
-                       "agreement"],
+        "predicates": ["reload_consistent", "release_rule", "side_harmless", "no_errors",
+                       "conservation", "agreement"],
+        "with_reload": True, "with_cut": True,
+    },
+    # release-rule half of C06, decided on real channels (called from props/c06.py)
+    "C06": {
+        "module": "LV.Channel.Props_C02",
+        "targets": ["theories/Channel/Props_C02.vo", "theories/Channel/Exec.vo"],
+        "theorems": ["C02_revoke_advances_tail", "C02_tail_height_monotone",
+                     "C02_restore_keeps_tail", "C02_restore_keeps_signed"],
+        "env": {"VERIF_CRASH": "1", "VERIF_CUT": "1"},
+        "predicates": ["release_rule", "reload_consistent", "side_harmless", "no_errors"],
         "with_reload": True, "with_cut": True,
     },
     "C03": {
@@ -52,8 +62,12 @@ SPEC = {
 }
 
 
-def run_prop(ctx, pid):
+def run_prop(ctx, pid, nested=False):
+    """nested=True: run as an additional stage of another property's check (C06's
+    release rule): coverage goes under ctx.cov["channel_stage"], the proof-stage
+    numbers of the caller are added to, not replaced."""
     sp = SPEC[pid]
+    saved = dict(ctx.cov) if nested else None
     pr = ctx.proof_stage(sp["module"], sp["theorems"], sp["targets"], extra_trusted=[
         "channel modelled at cut level (two append-only update logs + declarative commit_of); the "
         "incremental add/remove-height bookkeeping of lnwallet is tied by correspondence only",
@@ -119,7 +133,17 @@ def run_prop(ctx, pid):
                       {"log": pr["log"][-4000:]}, signature="proof", failing_input=False)
     h = cc.histograms(rows)
     nsteps = sum(len(r["steps"]) for r in rows)
-    ctx.cov.update({
+    if nested:
+        stage = {k: ctx.cov.get(k) for k in ("obligations", "discharged", "theorems", "audit")}
+        ctx.cov.clear()
+        ctx.cov.update(saved)
+        ctx.cov["obligations"] = saved.get("obligations", 0) + (stage["obligations"] or 0)
+        ctx.cov["discharged"] = saved.get("discharged", 0) + (stage["discharged"] or 0)
+        ctx.cov.setdefault("theorems", {}).update(stage["theorems"] or {})
+        target = ctx.cov.setdefault("channel_stage", {})
+    else:
+        target = ctx.cov
+    target.update({
         "evaluations": len(rows),
         "distinct_nontrivial": distinct_count([r for r in rows if len(r["steps"]) >= 8],
                                               lambda r: [s["op"] for s in r["steps"]]),
